@@ -22,13 +22,21 @@ def how(what):
     if 'spellings' in what:
         return 'direct c14'
     if 'accepted instead of refused' in what:
-        return 'direct c13'
+        return 'direct c13 / rejections'
     if 'requested alone' in what or 'other traits' in what:
         return 'direct c15'
     if 'in one process' in what or 'different processes' in what or 'release profile' in what:
         return 'direct c16'
     if 'cargo' in what or 'feature' in what:
         return 'direct c18'
+    if 'names `::std`' in what or 'names `::alloc`' in what:
+        return 'C19 std-path oracle'
+    if 'discriminant expression the macro cannot evaluate' in what:
+        return 'direct c04'
+    if "`bound = false` on" in what:
+        return 'direct c12'
+    if 'does not return on this input' in what:
+        return 'direct c17 (panic)'
     if 'custom clone method' in what:
         return 'direct c07'
     if '`unsafe`' in what:
